@@ -297,22 +297,70 @@ pub struct KnownFinding {
     pub commit: String,
 }
 
+/// File format (`/verif/known_findings.txt`, committed, never written at run time):
+///
+/// ```text
+/// open: property=<id> class=<signature class> key=<failing input / call site / history> :: <what fails>
+/// fixed: property=<id> <commit> <what failed>
+/// ```
+///
+/// `open` entries suppress exactly the listed (class, key); `fixed` entries suppress nothing.
 pub fn load_known_findings(property: &str) -> Vec<KnownFinding> {
-    let p = verif_root().join("known_findings.jsonl");
+    let p = verif_root().join("known_findings.txt");
     let Ok(text) = std::fs::read_to_string(&p) else {
         return vec![];
     };
-    text.lines()
-        .filter(|l| !l.trim().is_empty() && !l.trim_start().starts_with('#'))
-        .filter_map(|l| match serde_json::from_str::<KnownFinding>(l) {
-            Ok(k) => Some(k),
-            Err(e) => {
-                eprintln!("known_findings.jsonl: unreadable line ({e}): {l}");
-                None
+    let mut out = vec![];
+    for l in text.lines() {
+        let l = l.trim();
+        if l.is_empty() || l.starts_with('#') {
+            continue;
+        }
+        let (status, rest) = if let Some(r) = l.strip_prefix("open:") {
+            ("open", r.trim())
+        } else if let Some(r) = l.strip_prefix("fixed:") {
+            ("fixed", r.trim())
+        } else {
+            eprintln!("known_findings.txt: unreadable line: {l}");
+            continue;
+        };
+        let (head, what) = match rest.split_once(" :: ") {
+            Some((h, w)) => (h, w.to_string()),
+            None => (rest, String::new()),
+        };
+        let mut k = KnownFinding {
+            status: status.to_string(),
+            property: String::new(),
+            class: String::new(),
+            key: String::new(),
+            what,
+            commit: String::new(),
+        };
+        let mut free = vec![];
+        for tok in head.split_whitespace() {
+            if let Some(v) = tok.strip_prefix("property=") {
+                k.property = v.to_string();
+            } else if let Some(v) = tok.strip_prefix("class=") {
+                k.class = v.to_string();
+            } else if let Some(v) = tok.strip_prefix("key=") {
+                k.key = v.to_string();
+            } else {
+                free.push(tok);
             }
-        })
-        .filter(|k| k.property == property)
-        .collect()
+        }
+        if status == "fixed" {
+            if let Some(c) = free.first() {
+                k.commit = c.to_string();
+            }
+            if k.what.is_empty() {
+                k.what = free.iter().skip(1).cloned().collect::<Vec<_>>().join(" ");
+            }
+        }
+        if k.property == property {
+            out.push(k);
+        }
+    }
+    out
 }
 
 // ---------------------------------------------------------------------------
